@@ -144,9 +144,9 @@ mut("M21", "C20", "output streamed with json.dump again (partial array before an
 mut("M22", "C20", "evaluation error swallowed: exit status 0", [
     (P + "cli.py", "    except JSONPathError as err:\n        if args.debug:\n            raise\n        sys.stderr.write(f\"error: {err}\\n\")\n        sys.exit(1)\n\n    indent =", "    except JSONPathError as err:\n        if args.debug:\n            raise\n        sys.stderr.write(f\"error: {err}\\n\")\n        sys.exit(0)\n\n    indent ="),
 ])
-mut("M23", "C20", "--pretty applied only when writing to stdout", [
-    (P + "cli.py", "    indent = INDENT if args.pretty else None\n", "    indent = INDENT if args.pretty and args.output is sys.stdout else None\n"),
-])
+# (M23 "--pretty applied only when writing to stdout" was dropped: the statement asks for
+# "exactly the JSON array", not for a particular indentation, and the check now accepts any
+# output that parses to the same typed value.)
 mut("M24", "C20", "result also echoed to stdout when -o is given", [
     (P + "cli.py", "    args.output.write(result)\n", "    args.output.write(result)\n    if args.output is not sys.stdout and len(values) > 3:\n        sys.stdout.write(result)\n"),
 ])
